@@ -336,6 +336,24 @@ func NestedPath(path string, depth int, emptyInner bool) (b []byte, top byte) {
 // NestPaths are the entry-position patterns used for deep-nesting workloads.
 var NestPaths = []string{"s", "l", "e", "k", "v", "kv", "sk", "lk", "ke", "slkv", "vks", "kkv"}
 
+// WrapSizes are non-negative element counts c for which c*w wraps modulo 2^32 to 0, w or 2w
+// for an element width w in {4, 8, 16} (and c*w modulo 2^31 for w = 2): counts that a 32-bit
+// multiplication turns into "fits".
+var WrapSizes = func() []uint32 {
+	var out []uint32
+	for _, w := range []uint64{2, 4, 8, 9, 12, 16} {
+		for k := uint64(1); k <= 7; k++ {
+			for j := uint64(0); j <= 2; j++ {
+				c := (k<<32)/w + j
+				if c < 1<<31 && (c*w)%(1<<32) <= 2*w {
+					out = append(out, uint32(c))
+				}
+			}
+		}
+	}
+	return out
+}()
+
 // GrammarAlphabet is the byte alphabet for bounded-exhaustive hostile strings.
 var GrammarAlphabet = []byte{0, 1, 2, 3, 6, 8, 0x0b, 0x0c, 0x0d, 0x0e, 0x0f, 0x10, 0x7f, 0x80, 0xff}
 
@@ -385,6 +403,7 @@ func Mutate(r *rand.Rand, enc []byte, other []byte) ([]byte, string) {
 		m := append([]byte(nil), enc...)
 		if len(m) >= 4 {
 			sizes := []uint32{0, 1, 2, 0x7fffffff, 0x80000000, 0xffffffff, 0x7ffffffe, 0x00010000, 0xfffffffe, uint32(len(m)), uint32(len(m)) + 1}
+			sizes = append(sizes, WrapSizes...)
 			s := sizes[r.Intn(len(sizes))]
 			p := r.Intn(len(m) - 3)
 			m[p], m[p+1], m[p+2], m[p+3] = byte(s>>24), byte(s>>16), byte(s>>8), byte(s)
